@@ -31,7 +31,7 @@ pub fn fmt_stub(_args: core::fmt::Arguments<'_>) -> String {
 }
 
 // ---- BLAKE2b compress transcript (stub for crate::blake2b::blake2b_soft::compress) ----
-pub const B2_CAP: usize = 6;
+pub const B2_CAP: usize = 10;
 
 pub fn compress_log_stub(sh: &mut [u64; 8], st: &[u64; 2], sf: &[u64; 2], block: &[u8]) {
     unsafe {
